@@ -83,6 +83,11 @@ func NewEncryptedISO(f afero.File, data1 []byte, clearRegions bool) (*EncryptedI
 		return nil, fmt.Errorf("read unencrypted regions count failed: %w", err)
 	}
 
+	// regions map is located in the first sector
+	if maxRegions := uint32((sectorSize - sizeBytes(binary.Size(hdr))) / sizeBytes(binary.Size(unencryptedRegion{}))); hdr.Count > maxRegions {
+		return nil, fmt.Errorf("too many unencrypted regions (%d)", hdr.Count)
+	}
+
 	unencryptedRegions := make([]unencryptedRegion, hdr.Count)
 	err = binary.Read(f, binary.BigEndian, unencryptedRegions)
 	if err != nil {
